@@ -61,8 +61,11 @@ package sliceio
 
 // ---- C07: row streams (token model of gob in /verif/trusted/gob.contracts) ----
 
+//@ spec func encOK(e *Encoder) bool = e != nil && e.enc != nil && e.enc.Encoder != nil && e.crc != nil && e.crc.hside == 0
+
 //@ func sliceio.(*Encoder).Write (ctx, f) (err)
-//@   requires e != nil && e.enc != nil && e.enc.Encoder != nil && e.crc != nil && e.crc.hside == 0 && wf(f) && forall(k, 0, len(f.data), implies(f.data[k].ops.Encode != nil, true))
+//@   requires encOK(e) && wf(f)
+//@   ensures  encOK(e)
 //@   ensures  length-first: implies(wclock > old(wclock), wtok[old(wclock) + 1] == tokOf(boxed(f.len, any)))
 //@   ensures  checksum-covers-the-whole-batch: implies(err == nil, e.crc.hstart == old(wclock) && wtok[wclock] == tokOf(boxed(crcOfRange(0, old(wclock), wclock - 1), any)))
 //@   ensures  at-least-length-and-checksum: implies(err == nil, wclock >= old(wclock) + 2 + len(f.data))
